@@ -32,7 +32,7 @@ def language(tier, uname="U1"):
     if uname == "U2":
         wins = [{}, {"since": 7}, {"since": 10}, {"since": 15}, {"until": 7}, {"until": 25}, {"since": 4}, {"since": 21}, {"since": 7, "until": 25}]
     if tier == "quick":
-        wins = wins[:6]
+        wins = wins[:6] + ([{"since": 20, "until": 20}, {"since": 11, "until": 29}] if uname == "U1" else [{"since": 7, "until": 25}])
     for w in wins:
         if w:
             base.append(dict(w))
